@@ -103,7 +103,7 @@ let find_alias (v : Abs.volume) (s : Tree.tstate) (d : coq_N) (name : coq_N list
 let pattern (n : int) (seed : int) : coq_N list =
   Stdlib.List.init n (fun i -> n_of_int ((seed + i * 7 + i / 251) mod 256))
 
-let run_script (si : int) (ops : opblock list) (do_wf : bool) (do_tree : bool) (do_info : bool) : unit =
+let run_script (si : int) (ops : opblock list) (do_wf : bool) (do_tree : bool) (do_info : bool) (do_regions : bool) : unit =
   Printf.printf "S %d\n" si;
   let im = ref (Image.img_empty N0) in
   let ts = ref Tree.ts_init in
@@ -112,6 +112,51 @@ let run_script (si : int) (ops : opblock list) (do_wf : bool) (do_tree : bool) (
   let stop = ref false in
   Stdlib.List.iteri (fun oi b ->
     if not !stop then begin
+      (* 0. classification of the writes of this op against the volume as it was before the op *)
+      if do_regions && !formatted && Stdlib.List.exists (fun ev -> match ev with "w" :: _ -> true | _ -> false) b.events then begin
+        let vpre = Abs.abs !im in
+        let g = vpre.Abs.v_geom in
+        let own = Regions.owners vpre in
+        let own_name = function
+          | Regions.OFree -> "free:0" | Regions.OBad -> "bad:0" | Regions.OUnowned -> "unowned:0"
+          | Regions.ODir f -> "dir:" ^ string_of_n f | Regions.OFile f -> "file:" ^ string_of_n f in
+        let reg_name = function
+          | Regions.RStatus -> "status" | Regions.RBoot -> "boot" | Regions.RFsInfo -> "fsinfo"
+          | Regions.RFat k -> "fat" ^ string_of_n k | Regions.RRoot -> "root"
+          | Regions.RCluster (c, o) -> "cl:" ^ string_of_n c ^ ":" ^ own_name o
+          | Regions.RTail -> "tail" | Regions.ROutside -> "outside" in
+        (* the file a handle op refers to: first cluster of its entry in the pre-image *)
+        (match b.toks with
+         | op :: fh :: _ when Stdlib.List.mem op ["write"; "write_all"; "write_pat"; "truncate"; "flush"; "drop_file"; "read"; "read_all"] ->
+           (match Tree.file_of_handle !ts (n_of_string fh) with
+            | Some f ->
+              (match Tree.find_node !ts f.Tree.fh_node with
+               | Some nd ->
+                 (match abs_dir_children vpre.Abs.v_root (names_to_root !ts nd.Tree.t_parent []) with
+                  | Some ch ->
+                    let u = Str.utf16_encode nd.Tree.t_name in
+                    Stdlib.List.iter (fun n -> let e = Abs.node_entry n in
+                                       if e.Abs.e_lfn = u then Printf.printf "F %d %s\n" oi (string_of_n e.Abs.e_cluster)) ch
+                  | None -> ())
+               | None -> ())
+            | None -> ())
+         | _ -> ());
+        let cur = ref !im in
+        Stdlib.List.iter (fun ev ->
+          match ev with
+          | "w" :: off :: hx :: depth :: _ ->
+            let o = n_of_string off and bs = bytes_of_hex hx in
+            let len = Stdlib.List.length bs in
+            let r1 = Regions.classify g !im own o in
+            let r2 = Regions.classify g !im own (BinNat.N.add o (n_of_int (max 0 (len - 1)))) in
+            let ch = Regions.changed_offsets !cur o bs in
+            let in_dir = (match r1 with Regions.RRoot -> true | Regions.RCluster (_, Regions.ODir _) -> true | _ -> false) in
+            let time_only = in_dir && Stdlib.List.for_all (fun x -> Regions.is_time_field (BinNat.N.modulo x (n_of_int 32))) ch in
+            let structural = (match r1 with Regions.RStatus | Regions.RFsInfo -> false | _ -> ch <> [] && not time_only) in
+            Printf.printf "R %d %s %s %d %s %d %s\n" oi (reg_name r1) (reg_name r2) (if structural then 1 else 0) off len depth;
+            cur := Image.img_write !cur o bs
+          | _ -> ()) (Stdlib.List.rev b.events)
+      end;
       (* 1. device writes of this op *)
       Stdlib.List.iter (fun ev ->
         match ev with
@@ -253,4 +298,4 @@ let main (flags : string list) : unit =
   let has f = Stdlib.List.mem f flags in
   (match Sys.getenv_opt "FATFS_UPPER_TABLE" with Some p -> load_upper p | None -> ());
   let scripts = read_transcript () in
-  Stdlib.List.iteri (fun si ops -> run_script si ops (has "wf") (has "tree") (has "info")) scripts
+  Stdlib.List.iteri (fun si ops -> run_script si ops (has "wf") (has "tree") (has "info") (has "regions")) scripts
